@@ -122,7 +122,7 @@ EXPLICIT = {
     'hyp2f2': ["(1, 2, 3, 4, 0.5)"], 'hyp2f3': ["(1, 2, 3, 4, 5, 0.5)"], 'hyp3f2': ["(1, 2, 3, 4, 5, 0.5)"], 'hyp1f0' if False else 'hypot': ["(3, 4)"],
     'legendre': ["(3, 0.25)", "(2.5, 0.5)"], 'chebyt': ["(3, 0.25)"], 'chebyu': ["(3, 0.25)"], 'hermite': ["(3, 0.25)"], 'laguerre': ["(3, 0.5, 0.25)"],
     'lambertw': ["(1.5)", "(-0.25, -1)", "(mpc(1, 2), 2)"], 'agm': ["(1, 2.5)"], 'atan2': ["(1, -2.5)"], 'log': ["(2.5)", "(8, 2)", "(mpc(-1, 0.5))"], 'power': ["(2.5, 0.5)", "(-8, mpf(1)/3)"],
-    'root': ["(8, 3)", "(mpc(2, 3), 3)", "(2, 5, 2)"], 'nthroot': ["(8, 3)"], 'cbrt': ["(2)"], 'ldexp': ["(mpf(1.5), 10)"], 'frexp': ["(10.5)"], 'powm1': ["(1.0000001, 3)"],
+    'root': ["(8, 3)", "(mpc(2, 3), 3)", "(2, 5, 2)", "(2, 21)", "(mpf('2.5'), 100)", "(3, 20000)"], 'nthroot': ["(8, 3)", "(10, 33)"], 'cbrt': ["(2)"], 'ldexp': ["(mpf(1.5), 10)"], 'frexp': ["(10.5)"], 'powm1': ["(1.0000001, 3)"],
     'nint_distance': ["(mpf(5.0000001))"], 'mag': ["(mpf(10.5))", "(mpc(1, 1000))"], 'polar': ["(mpc(1, 2))"], 'rect': ["(2, 0.5)"],
     'primepi': ["(100)"], 'primepi2': ["(100)"], 'riemannr': ["(100.5)"], 'mangoldt': ["(27)"], 'fib': ["(20)", "(5.5)"], 'bernoulli': ["(10)", "(60)"], 'bernpoly': ["(4, 0.5)"], 'eulerpoly': ["(4, 0.5)"], 'eulernum': ["(10)"],
     'fac2': ["(7)", "(5.5)"], 'superfac': ["(5)"], 'hyperfac': ["(4)"], 'barnesg': ["(5.5)"], 'loggamma': ["(2.5)", "(mpc(-1.5, 20))"], 'rgamma': ["(-2)", "(2.5)"],
